@@ -134,6 +134,8 @@ class StreamingControl(Obligation):
                                                                    for i in range(len(seq.elems))])))
                 else:
                     out.append(Claim('all modifications forwarded', seq.n == res['nm']))
+            out.append(Claim('an accepted message that carries acks hands them to the subscription', z3.Implies(res['na'] > 0, z3.BoolVal('AcknowledgeMessages' in kinds))))
+            out.append(Claim('an accepted message that carries deadline modifications hands them to the subscription', z3.Implies(res['nm'] > 0, z3.BoolVal('ModifyDeadline' in kinds))))
             out.append(Cover('accepted with acks and modifications', len(enq) == 2))
         return out
 
@@ -150,7 +152,7 @@ def native_replay(ob_id, v):
         return {'judge': 'streaming_bad_modify', 'scenario': 'streaming_bad_modify_after_ack'}
     if ob_id.startswith('C17.f-accepted-names'):
         from props.C18 import native_replay as names_replay
-        return names_replay('C18.a-' + ob_id.rsplit('-', 1)[1], v)
+        return names_replay('C18.a-api-' + ob_id.rsplit('-', 1)[1], v)
     return None
 
 
@@ -166,10 +168,10 @@ def obligations(ctx, cfg):
 
 def _name_shapes(ctx, q):
     # a malformed resource name must be rejected: what the two name parsers accept is decided byte by byte (the obligations of C18.a)
-    from props.C18 import ParseShape
+    from props.C18 import ApiParseShape
     out = []
     for kind in ('topic', 'subscription'):
-        ob = ParseShape(ctx, kind, (22 if q else 32) + (7 if kind == 'subscription' else 0))
+        ob = ApiParseShape(ctx, kind, (22 if q else 32) + (7 if kind == 'subscription' else 0))
         ob.id = 'C17.f-accepted-names-%s' % kind
         out.append(ob)
     # the other request fields with a validity rule: deadline seconds (negative -> INVALID_ARGUMENT) and paging (size, token)
